@@ -194,7 +194,7 @@ func NewWorker(p *Program, opt Options) (*Worker, error) {
 		w.Opt.StepCap = 2_000_000
 	}
 	if w.Opt.SolverKind == "" {
-		w.Opt.SolverKind = "z3"
+		w.Opt.SolverKind = smt.DefaultZ3()
 	}
 	if w.Opt.SolverTimeoutMs == 0 {
 		w.Opt.SolverTimeoutMs = 20000
